@@ -66,7 +66,7 @@ func cmdCheck(args []string) int {
 	fs.BoolVar(&o.verbose, "v", false, "verbose")
 	fs.StringVar(&o.dump, "dump", "", "directory to dump queries into")
 	fs.IntVar(&o.quickS, "t1", 4, "first-pass solver timeout (s)")
-	fs.IntVar(&o.fullS, "t2", 90, "second-pass solver timeout (s)")
+	fs.IntVar(&o.fullS, "t2", 45, "second-pass solver timeout (s)")
 	fs.IntVar(&o.jobs, "j", 12, "parallel obligations")
 	fs.BoolVar(&o.noReplay, "noreplay", false, "skip replay of counterexamples")
 	fs.IntVar(&o.seed, "seed", 0, "seed (recorded in evidence)")
@@ -101,6 +101,11 @@ func runCheck(o *options) int {
 	if err != nil {
 		fmt.Fprintln(os.Stderr, "govc: load:", err)
 		return 2
+	}
+	if err := eng.checkImmutables(); err != nil {
+		fmt.Fprintln(os.Stderr, "govc:", err)
+		fmt.Printf("VIOLATION property=%s replay=none obligation=immutable %v no-failing-input-found\n", strings.Join(o.props, ","), err)
+		return 1
 	}
 	loadS := time.Since(t0).Seconds()
 
